@@ -10,32 +10,38 @@ Statements about the code-shaped model `Zrnt.ForkChoice` (`Zrnt/ForkChoice/Model
 GHOST oracle `Zrnt.ForkChoice.Spec`).
 
 What is proved here:
-* for ALL operation sequences: the structure invariant (`inv_structure`, while nothing is pruned);
-* for all sequences inside the domain of the refinement (`Admissible`): chain structure, votes and weights
-  invariants (`inv_weights`: the weight of every node is the sum of the balances of the validators whose applied
-  vote lies in its fork-choice subtree), correctness of the best-child / best-descendant links after every
-  connection pass (`inv_best`), and the refinement itself (`head_eq_ghost_partial`): every `Head()` /
-  `FindHead()` answer of the model, error or value, is the answer of the GHOST oracle `Spec.lean`.
-The full-strength `head_eq_ghost` (no hypothesis on the history) is false of the current code because of the
-OnPrune family (known finding): `head_eq_ghost_false` exhibits a history with a finalization on which the two
-heads differ. Before the fixes 6f39f86 (ComputeDeltas), e38b1d0 (ProcessAttestation guard) and 88e6a0a
-(non-leading best child) the partial theorem was false as well; the minimized witnesses are in `corpus/fc09.ops`.
+* for ALL operation sequences that do not move the finalized checkpoint, malformed insertions included: the
+  structure invariant (`inv_structure`);
+* for all sequences inside the domain of the refinement (`Admissible`: non-zero roots, well-placed empty-slot
+  insertions, a root names one block, a pruned node does not come back while a vote names it) — finalizing
+  updates and pruning INCLUDED: chain structure, votes and weights invariants (`inv_weights`: the weight of every
+  node is the sum of the balances of the validators whose applied vote lies in its fork-choice subtree),
+  correctness of the best-child / best-descendant links after every connection pass (`inv_best`), and the
+  refinement itself (`head_eq_ghost`): every `Head()` / `FindHead()` answer of the model, error or value, is the
+  answer of the GHOST oracle `Spec.lean`, whose tree after a finalization is the tree restricted to the
+  finalized subtree.
+Before the rewrite of `ProtoArray.OnPrune` (commit 38d1471 in /repo) the statement was false on histories with
+a finalization: `Old.head_eq_ghost_false` keeps the witness against the model of the old code
+(`Zrnt/ForkChoice/Old.lean`). Before the fixes 6f39f86 (ComputeDeltas), e38b1d0 (ProcessAttestation guard) and
+88e6a0a (non-leading best child) it was false without pruning as well; the minimized witnesses are in
+`corpus/fc09.ops`.
 -/
 namespace Zrnt.Proofs.C09
 open Zrnt.ForkChoice
 
 def rt (n : Nat) : Root := n * 256 ^ 31
 
-/-- **Structure invariant, all operation sequences.** As long as nothing has been pruned (offset 0 after every
-prefix), the live instance has a free mutex and a well-formed array (`WF`: parents at smaller indices, index map and
+/-- **Structure invariant, all operation sequences that leave the finalized checkpoint alone** (`Quiet`; malformed
+insertions, zero roots, votes for anything are allowed). The live instance has a free mutex and a well-formed array (`WF`: parents at smaller indices, index map and
 array agree, one delta slot per node, best links are children / proper descendants), and no call has panicked,
 blocked or looped. -/
 theorem inv_structure (ops : List Op) (st : MState) (h : MInv st) (hq : Quiet st ops) : MInv (run st ops).1 :=
   Zrnt.ForkChoice.inv_structure_quiet ops st h hq
 
 /-- **Weights / votes / chain invariants, all admissible operation sequences** (`Admissible`: non-zero roots,
-empty-slot insertions under a known root at or after its first slot, finalized checkpoint never moved — so nothing
-is pruned). `MInv2 (.live fc)` unfolds to: mutex free, `WF fc.pa`, `Chain fc.pa`, Go's zero `NodeRef` is not a node,
+empty-slot insertions under a known root at or after its first slot, a root names one block, pruned nodes that a
+vote still names do not come back; `UpdateJustified` is unrestricted, so the history may finalize and prune any
+number of times). `MInv2 (.live fc)` unfolds to: mutex free, `WF fc.pa`, `Chain fc.pa`, Go's zero `NodeRef` is not a node,
 every applied vote is a node, and `WeightsOK fc`. -/
 theorem inv_weights (ops : List Op) (ha : Admissible .none ops) : MInv2 (run .none ops).1 :=
   Zrnt.ForkChoice.inv_weights ops .none trivial ha
@@ -91,19 +97,36 @@ theorem inv_best (pr : PA) (h : WF pr) (hs : SibDistinct pr) :
       (pr.updateConnections).1.nodeLeads n = some (leads (pr.updateConnections).1 i) :=
   linksOK_updateConnections pr h hs
 
-/-- **head_eq_ghost (partial: admissible histories).** On every history inside the domain — non-zero roots,
-empty-slot insertions under a known root at or after its first slot, no vote for Go's zero `NodeRef`, finalized
-checkpoint never moved (so nothing is pruned) — every `Head()` and `FindHead(anchor, slot)` answer of the model,
-value or error, equals the specification's: the LMD-GHOST walk from the pinned/justified start node through the
-children that lead to a viable head, taking the greatest (sum of balances of the validators whose latest accepted
-vote lies in the subtree, root). The model and specification states stay related (`MRef`) throughout. -/
-theorem head_eq_ghost_partial (ops : List Op) (ha : Admissible .none ops) :
+/-- **head_eq_ghost.** On every history inside the domain — non-zero roots, empty-slot insertions under a known
+root at or after its first slot, no vote for Go's zero `NodeRef`, a root names one block and a pruned node that a
+vote still names is not inserted again; checkpoint updates are arbitrary, so the finalized checkpoint may move and
+the array is pruned — every `Head()` and `FindHead(anchor, slot)` answer of the model, value or error, equals the
+specification's: the LMD-GHOST walk from the pinned/justified start node through the children that lead to a
+viable head, taking the greatest (sum of balances of the validators whose latest accepted vote lies in the
+subtree, root), on the inserted tree restricted to the finalized subtree. The model and specification states stay
+related (`MRef`) throughout. -/
+theorem head_eq_ghost (ops : List Op) (ha : Admissible .none ops) :
     HeadsAgree ops (run .none ops).2 (Spec.run none ops).2 ∧ MRef (run .none ops).1 (Spec.run none ops).1 :=
   head_eq_ghost_run ops .none none trivial trivial ha
 
 /-- non-vacuity: `hist` above is admissible and contains two `head` queries -/
 example : HeadsAgree hist (run .none hist).2 (Spec.run none hist).2 :=
-  (head_eq_ghost_partial hist (admissibleB_sound hist .none (by decide +kernel))).1
+  (head_eq_ghost hist (admissibleB_sound hist .none (by decide +kernel))).1
+
+/-- non-vacuity with pruning: a fork, votes on both sides, a finalization that drops the losing side (recording
+sink), a vote and a block afterwards, a second finalization at an empty-slot checkpoint, heads in between -/
+def histF : List Op := [
+  .init 4 (rt 1) 0 0 ⟨0, rt 1⟩ ⟨0, rt 1⟩ .recording [32, 32, 32],
+  .block (rt 1) (rt 2) 1 0 0, .block (rt 1) (rt 3) 2 0 0, .block (rt 2) (rt 4) 4 1 0, .block (rt 3) (rt 5) 5 1 0,
+  .att 0 (rt 4) 4, .att 1 (rt 5) 5, .att 2 (rt 5) 5, .head,
+  .justify (rt 4) ⟨1, rt 4⟩ ⟨1, rt 4⟩ (some [32, 32, 33]), .head,
+  .block (rt 4) (rt 6) 6 1 1, .att 1 (rt 6) 6, .head, .block (rt 6) (rt 7) 9 2 2, .slot (rt 6) 8 2 2,
+  .justify (rt 7) ⟨2, rt 6⟩ ⟨2, rt 6⟩ (some [32, 32, 33]), .head, .findHead (rt 6) 8]
+
+example : Admissible .none histF := admissibleB_sound histF .none (by decide +kernel)
+
+example : HeadsAgree histF (run .none histF).2 (Spec.run none histF).2 :=
+  (head_eq_ghost histF (admissibleB_sound histF .none (by decide +kernel))).1
 
 /-- a history with a finalization (gap-slot anchor, no sink): the code's head stays on the empty-slot chain of the
 finalized root, the specification's head is the block voted for -/
@@ -114,7 +137,11 @@ def witHead : List Op := [
   .justify (rt 2) ⟨1, rt 0x7f⟩ ⟨1, rt 0x7f⟩ (some [32, 33, 32]),
   .att 0 (rt 2) 5, .head]
 
-/-- the full-strength statement (every history) is false of the current code (OnPrune family, known finding) -/
+/-- `witHead` is inside the domain, so the theorem applies to it: the rewritten code answers as the specification -/
+example : HeadsAgree witHead (run .none witHead).2 (Spec.run none witHead).2 :=
+  (head_eq_ghost witHead (admissibleB_sound witHead .none (by decide +kernel))).1
+
+/-- the statement was false of the code before commit 38d1471 (`Zrnt.ForkChoice.Old`: the old `OnPrune`) -/
 theorem Old.head_eq_ghost_false :
     ¬ ∀ ops : List Op, HeadsAgree ops (Zrnt.ForkChoice.Old.run .none ops).2 (Spec.run none ops).2 := by
   intro h
